@@ -1122,7 +1122,7 @@ pub fn run_case(case: &CrashCase, wroot: &Path, c02: bool, stats: &mut Stats) ->
       let cap: u64 = match (case.samples > 2, c02) {
         (true, true) => 60_000,
         (true, false) => 400_000,
-        (false, true) => 5_000,
+        (false, true) => 3_000,
         (false, false) => 25_000,
       } / if has_long_docs { 4 } else { 1 };
       if case.pin.is_none() {
